@@ -13,6 +13,9 @@
 #include "types.h"
 #include "meta.h"
 #include "node.h"
+#include "convert.h"
+#include "array.h"
+#include "io.h"
 
 /* mpt++/std_cout.cpp: operator<<(std::ostream &, mpt::convertable &); answers the number of characters, -1 when the
  * stream went bad */
@@ -28,4 +31,32 @@ extern "C" int x30_cxx_set_metatype(void *n, void *m)
 {
 	static_cast<mpt::node *>(n)->set_metatype(static_cast<mpt::metatype *>(m));
 	return 0;
+}
+
+/* io::buffer::metatype with an active message encoder and a message in progress (unfinished data / encoder
+ * context): the state in which clone() refuses.  The class is abstract about its reference: a subclass supplies it. */
+class x30_encoded : public mpt::io::buffer::metatype
+{
+public:
+	x30_encoded() : metatype(mpt::array(0))
+	{
+		_enc = mpt::mpt_encode_cobs;
+	}
+	void unref() __MPT_OVERRIDE
+	{
+		delete this;
+	}
+	bool pending() const
+	{
+		return _state.scratch || _state._ctx;
+	}
+};
+extern "C" void *x30_cxx_new_encoded(void)
+{
+	x30_encoded *e = new x30_encoded;
+	if (e->push(2, "de") < 0 || !e->pending()) {
+		delete e;
+		return 0;
+	}
+	return static_cast<mpt::metatype *>(e);
 }
